@@ -4,7 +4,7 @@ import MM.Model.C39
 /-
   Engine c39: control request/response forwarding of the real agent against MM/Model/C39.lean.
 
-    reset | conn P | disc P | send T | cancel id | req P id T [path…] | resp P id ok|fail tag
+    reset | conn P | disc P | send T | sendfail T | sendstall T | release T ok|fail | sleep | wake | cancel id | req P id T [path…] | resp P id ok|fail tag
   answer: out=[…] pending=[ids] fwd=[id:peer …]
 -/
 namespace MM.Engine.C39
@@ -37,9 +37,19 @@ def render (a : Ag) (outs : List Out) : String :=
   let fwd := (a.fwd.foldr insertKV []).map (fun kv => s!"{kv.1}:{kv.2}")
   s!"out=[{" ".intercalate items}] pending=[{" ".intercalate pend}] fwd=[{" ".intercalate fwd}] next={a.next}"
 
-def step (a : Ag) (line : String) : Ag × String :=
+/-- engine state: the agent and the local requests whose write is stalled (target, id), oldest first. -/
+structure ESt where
+  a : Ag := {}
+  stalled : List (Nat × Nat) := []
+
+def stepA (a : Ag) (line : String) : Ag × String :=
   match tokens line with
   | "reset" :: _ => ({}, "ok")
+  | ["sendfail", t] =>
+    let (a', outs) := a.issueFail t.toNat!
+    (a', render a' outs)
+  | ["sleep"] => let a' := a.sleep; (a', render a' [])
+  | ["wake"] => (a, render a [])
   | ["conn", p] =>
     let a' := { a with peers := p.toNat! :: a.peers.filter (· != p.toNat!) }
     (a', render a' [])
@@ -106,6 +116,17 @@ def specStep (s : SpecSt) (l : String) : SpecSt × String :=
     | "reset" :: _ => ({}, "ok")
     | ["conn", p] => ({ s with peers := p.toNat! :: s.peers.filter (· != p.toNat!) }, "ok")
     | ["disc", p] => ({ s with peers := s.peers.filter (· != p.toNat!) }, "ok")
+    | ["sleep"] => ({ s with peers := [] }, "ok")   -- requests in flight stay live: they may still be answered
+    | ["release", t, "ok"] =>
+      match items with
+      | [it] =>
+        match it.splitOn ":" with
+        | [hop, "req", id, _, _] =>
+          if s.live.any (fun r => r.origin.isNone && r.id == id.toNat!) then
+            (addRq s ⟨hop.toNat!, id.toNat!, none, t.toNat!, false⟩, "fail c39-local-id-reused")
+          else (addRq s ⟨hop.toNat!, id.toNat!, none, t.toNat!, false⟩, "ok")
+        | _ => (s, "ok")
+      | _ => (s, "ok")
     | ["send", t] =>
       -- a forwarded request of our own: read hop and id off the emitted frame
       match items with
@@ -154,9 +175,25 @@ def specStep (s : SpecSt) (l : String) : SpecSt × String :=
     | _ => (s, "ok")
   | _ => (s, "bad-op")
 
+def step (s : ESt) (line : String) : ESt × String :=
+  match tokens line with
+  | "reset" :: _ => ({}, "ok")
+  | ["sendstall", t] =>
+    match s.a.issueBegin t.toNat! with
+    | none => (s, render s.a [.sendErr])
+    | some (a', id) => ({ a := a', stalled := s.stalled ++ [(t.toNat!, id)] }, render a' [])
+  | ["release", t, ok] =>
+    match s.stalled.find? (fun e => e.1 == t.toNat!) with
+    | none => (s, render s.a [])
+    | some e =>
+      let (a', outs) := s.a.issueEnd e.1 e.2 (ok == "ok")
+      ({ a := a', stalled := s.stalled.erase e }, render a' outs)
+  | ["sleep"] => let (a', o) := stepA s.a line; ({ a := a', stalled := [] }, o)
+  | _ => let (a', o) := stepA s.a line; ({ s with a := a' }, o)
+
 def main (args : List String) : IO Unit :=
   match args with
   | ["spec"] => runLines ({} : SpecSt) specStep
-  | _ => runLines ({} : Ag) step
+  | _ => runLines ({} : ESt) step
 
 end MM.Engine.C39
